@@ -126,6 +126,7 @@ def run(model: RepoModel, rep, tier: str):
                        "definition-use chains) enter the current key into their memo before they call themselves", 5)
     check_mark_before_recursion(model, rep, "C13.R6", sorted(r for r in model.modules if r.startswith(("core/", "taint/")))
                                 + ["basics/type_hierarchy.py", "common_structs.py"])
+    _r6b_memo_key_is_bounded(model, rep)
     _r7_bounded_evaluation(model, rep)
 
     # functions something in the pipeline can reach (by-name over-approximation: a function is reachable when a reachable
@@ -510,6 +511,57 @@ SELF_FEEDING_OK = {
     ("events/default_event_handlers/add_var_decl.py", "adjust_variable_decls"):
         "walks the finite tree of statement lists: every pushed frame is a list nested inside the statement being visited",
 }
+
+
+def _r6b_memo_key_is_bounded(model: RepoModel, rep):
+    """A recursion that detects 'already in progress' through a memo key only terminates on cyclic data if the key can take finitely
+    many values.  A key component computed from a parameter that every round of the recursion EXTENDS (an access path that grows by
+    one element per level) is different at every level: the in-progress entry is never found again."""
+    from ..generic2 import _param_roots
+    n = 0
+    for rel in sorted(r for r in model.modules if r.startswith("core/")):
+        mod = model.module(rel)
+        for outer in mod.all_funcs(nested=False):
+            nested = {g.name.split(".")[-1]: g for g in mod._nested_of(outer)}
+            if len(nested) < 2:
+                continue
+            for hname, h in nested.items():
+                # memo guard: `key in cache` ... return, with key a tuple bound in h
+                guards = [c for c in walk_no_nested(h.node) if isinstance(c, ast.Compare) and len(c.ops) == 1 and isinstance(c.ops[0], ast.In)
+                          and isinstance(c.left, ast.Name) and isinstance(c.comparators[0], ast.Name) and c.comparators[0].id not in h.params]
+                if not guards:
+                    continue
+                kvar = guards[0].left.id
+                kdefs = [a.value for a in walk_no_nested(h.node) if isinstance(a, ast.Assign) and isinstance(a.targets[0], ast.Name) and a.targets[0].id == kvar]
+                if len(kdefs) != 1 or not isinstance(kdefs[0], ast.Tuple):
+                    continue
+                hparams = set(h.params)
+                # parameters of h that the cycle through the sibling closures extends before handing them back to h
+                extended: Dict[str, ast.AST] = {}
+                for g in nested.values():
+                    for c in walk_no_nested(g.node):
+                        if isinstance(c, ast.Call) and isinstance(c.func, ast.Name) and c.func.id == hname:
+                            for p_, a_ in list(zip(h.params, c.args)) + [(k.arg, k.value) for k in c.keywords if k.arg]:
+                                ds = [a_] + ([d.value for d in walk_no_nested(g.node) if isinstance(d, ast.Assign) and isinstance(d.targets[0], ast.Name)
+                                              and isinstance(a_, ast.Name) and d.targets[0].id == a_.id])
+                                for d in ds:
+                                    grows = (isinstance(d, ast.Call) and any(w in (call_name(d) or "").lower() for w in ("extend", "append"))) \
+                                        or (isinstance(d, ast.BinOp) and isinstance(d.op, ast.Add) and isinstance(d.right, (ast.List, ast.Tuple)))
+                                    if grows and (p_ in {x.id for x in ast.walk(d) if isinstance(x, ast.Name)} or p_ in g.params):
+                                        extended[p_] = d
+                n += 1
+                key = f"{rel}::{h.qualname}::the in-progress key `{kvar}` takes finitely many values"
+                bad = [(e, r) for e in kdefs[0].elts for r in _param_roots(h.node, e, hparams) if r in extended]
+                if bad:
+                    e, r = bad[0]
+                    rep.violation("C13.R6", key, rel, e.lineno,
+                                  f"the key contains `{norm(e)[:60]}`, computed from parameter `{r}`, which the recursion extends on every level "
+                                  f"(`{norm(extended[r])[:70]}`): the key is new at every level, the 'already in progress' entry is never found, and a "
+                                  f"cyclic field graph (a.next = b; b.next = a) recurses until RecursionError")
+                else:
+                    rep.holds("C13.R6", key, rel, kdefs[0].lineno, f"components {[norm(e)[:30] for e in kdefs[0].elts]} do not depend on {sorted(extended) or 'any growing parameter'}")
+    if not n:
+        raise AnalysisError("no closure with an in-progress memo (`key in cache`) found in core/: the field-merging recursion has moved")
 
 
 def _r7_bounded_evaluation(model: RepoModel, rep):
